@@ -27,11 +27,11 @@ var anchorPkgs = []string{
 // Program is the type-checked, SSA-built view of /repo's current working tree.
 type Program struct {
 	InlinedAccessors int
-	Dir   string
-	Fset  *token.FileSet
-	Pkgs  map[string]*packages.Package // by import path
-	SSA   *ssa.Program
-	SPkgs map[string]*ssa.Package
+	Dir              string
+	Fset             *token.FileSet
+	Pkgs             map[string]*packages.Package // by import path
+	SSA              *ssa.Program
+	SPkgs            map[string]*ssa.Package
 	// module functions (including anonymous and methods), sorted by position
 	Funcs []*ssa.Function
 }
